@@ -14,16 +14,20 @@ ASSUMPTIONS = [
     "the `_manylinux` policy module is a pure function of (major, minor, arch) (it is called twice for a legacy tag)",
     "mixed architecture lists get one floor for the whole list, as the code does (2.5 if x86_64 or i686 is anywhere in the list): "
     "the realistic lists are [arch] or [armv8l, armv7l]; the monotonicity/exactness theorems are stated per list",
-    "images read through a real file (sys.executable, stream elf-file) use offsets/sizes either below 2**32 or from {2**50, 2**62, 2**63-1, 2**63, max}: "
-    "where lseek / the read buffer start to refuse is machine dependent (file system limit, memory); the model takes the two limits as parameters "
-    "(ElfDisk.v) and the harness passes the nominal 2**48 for both - values between 2**32 and 2**50 are not generated",
+    "images read through a real file (sys.executable, stream elf-file): where lseek / the read buffer start to refuse is machine dependent "
+    "(file system limit, memory); the model takes the two limits as parameters (ElfDisk.v)",
     "subprocess.run for the musl loader is a stand-in that raises what the real one raises for such an argv (ValueError: embedded NUL; "
     "FileNotFoundError: the path is not in the case's list of existing loaders; the code catches both: no musl) and else returns the case's loader output; other failures of a real "
     "exec (PermissionError, ENOEXEC) are not modelled",
     "findings D27/D47/D48 (mixed-list floor, superset across glibc majors, iOS minors above 9): their law cases are "
     "generated only when the id is registered in known_findings.txt; the model-side streams cover the same inputs as agreement model = code",
     "version digits are ASCII; `\\d` and int() also accept other Unicode decimal digits (not modelled, not generated in the musl loader output)",
-    "the OUTPUT of subprocess.run (the musl loader's banner, the macOS version re-read) is a parameter of the model",
+    "the OUTPUT of subprocess.run (the musl loader's banner, the macOS version re-read) is a parameter of the model; stream musl-real-run runs the "
+    "real subprocess.run on generated /bin/sh scripts (needs /bin/sh and cat, a UTF-8 locale for the banner; '\\r' is left out there: universal newlines)",
+    "int()'s digit limit is the default 4300 (sys.get_int_max_str_digits(); PYTHONINTMAXSTRDIGITS not set); digit runs between 7 and 4300 digits are "
+    "generated only zero-padded (a glibc major of 10**20 makes the code - and the model - enumerate forever)",
+    "the seek limit of the temporary directory's file system is probed once (gen_plat.probe_seek_limit: ext4 about 2**44, tmpfs none below 2**63) and "
+    "offsets around it are generated; the read limit stays nominal (sizes are below 2**33 or at least 2**50)",
     "os.fsdecode is UTF-8/surrogateescape (checked: it round-trips every byte), so the interpreter path is compared as bytes",
     "platform.mac_ver()/ios_ver() release strings have at least two integer components",
 ]
@@ -35,7 +39,7 @@ TRUSTED_EXTRA = ["struct: the layout is modelled and proved (pack/unpack codec);
 # check is green with and without the registration; the matchers are narrow (input class and the observed wrong answer).
 ID_MIXED_FLOOR, ID_CROSS_MAJOR, ID_IOS_MINOR = "D27", "D47", "D48"
 REGISTERED = {f["id"] for f in core.load_findings("C16")}
-SEEK = READ = str(G.DISK_LIMIT)
+SEEK, READ = str(G.SEEK_LIMIT), str(G.READ_LIMIT)
 
 
 def plist(s):
@@ -94,7 +98,7 @@ def rand_confstr(rng):
 def rand_ctypes(rng):
     r = rng.random()
     if r < 0.4: return rng.choice(["I", "O", "A"])
-    return rng.choice("SB") + G.rand_glibc_string(rng).replace("٣", "")
+    return rng.choice("SB") + "".join(c for c in G.rand_glibc_string(rng) if ord(c) < 128)          # the bytes result is decoded as ASCII
 
 
 def musl_exe(rng):
@@ -218,6 +222,22 @@ def streams(rng, tier):
     for _ in range(150 if q else 3000):
         if True:
             out.append(Case("law-musl-noraise", "law.p.noraise", [enc_list(rng.choice(G.GOOD_ARCH_LISTS)), musl_exe(rng), G.rand_musl_output(rng), rand_loaders(rng)], kind="law"))
+    # ---- the musl probe against the REAL subprocess.run: generated loader scripts (runs / not executable / a directory / missing / NUL in the path)
+    REAL = [b"./ld-musl-run.sh\0", b"./ld-musl-run.sh", b"./ld-musl-noexec.sh\0", b"./ld-musl-dir.sh\0", b"./ld-musl-missing.sh\0", b"./ld-\0musl-run.sh\0",
+            b"./ld-glibc-run.sh\0", b"\0\0./ld-musl-run.sh\0\0"]
+    for _ in range(120 if q else 2500):
+        data = real_image(rng, rng.choice(REAL))
+        banner = "".join(c for c in G.rand_musl_output(rng) if c != "\r")          # text=True reads with universal newlines: "\r" arrives as "\n"
+        out.append(Case("musl-real-run", "p.muslreal", [enc_list(rng.choice(G.GOOD_ARCH_LISTS)), "F" + G.b2s(data), banner, ",./ld-musl-run.sh", SEEK, READ]))
+    # ---- the memo of _get_musl_version is lru_cache(maxsize=128): 130 different executables, then the first again (evicted: probed anew)
+    for _ in range(1 if q else 6):
+        args = [",x86_64"]
+        first = musl_exe_safe(rng)
+        for k in range(130):
+            args += ["K%d" % k, "Sglibc 2.17", "I", first if k == 0 else rng.choice(["X", "Fnot an elf", first]), "-", "musl libc\nVersion 1.%d\n" % (k % 7)]
+        args += ["K0", "Sglibc 2.17", "I", first, "-", "musl libc\nVersion 1.9\n"]
+        args += ["K129", "Sglibc 2.17", "I", first, "-", "musl libc\nVersion 1.8\n"]
+        out.append(Case("probe-cache-eviction", "p.probes", args))
     # ---- memoised probes across calls: several executables (keys), changing glibc / loader output, no cache_clear() in between
     for _ in range(250 if q else 5000):
         archs = rng.choice(G.GOOD_ARCH_LISTS if rng.random() < 0.6 else [["i686"], ["armv7l"], ["armv8l", "armv7l"]])
@@ -231,6 +251,19 @@ def streams(rng, tier):
                      rng.choice(["-", "-", "MFFF"]), G.rand_musl_output(rng)]
         out.append(Case("probe-cache", "p.probes", args))
     return out
+
+
+def real_image(rng, interp):
+    """a clean 64/32-bit image whose only PT_INTERP entry names [interp]"""
+    import struct
+    cap, enc = rng.choice([1, 2]), rng.choice([1, 2])
+    ehsize = 16 + struct.calcsize(G.E_FMT[(cap, enc)]); psize = struct.calcsize(G.P_FMT[(cap, enc)])
+    off = ehsize + psize
+    fields = [3, 4] + [0] * 6
+    io, isz = (1, 4) if cap == 1 else (2, 5)
+    fields[io], fields[isz] = off, len(interp)
+    hdr = [3, 62, 1, 0, ehsize, 0, 0, ehsize, psize, 1]
+    return b"\x7fELF" + bytes([cap, enc]) + bytes(10) + struct.pack(G.E_FMT[(cap, enc)], *hdr) + struct.pack(G.P_FMT[(cap, enc)], *fields) + interp
 
 
 def musl_exe_safe(rng):
